@@ -24,7 +24,11 @@ def overlap(rng, d1, d2):
         if set(r[0]) <= allowed1:
             d1["g"].append(r)
         if set(r[0]) <= allowed2:
-            d2["g"].append(r if how < 0.4 else (c08.scaled(r, 2) if how < 0.7 else c08.weakened(r, 1)))
+            tw = c08.first_coefficient_twin(r)
+            if tw and how < 0.2:
+                d2["g"].append(tw)         # same variables, same last coefficient and bound, another first coefficient: NOT the same guarantee
+            else:
+                d2["g"].append(r if how < 0.4 else (c08.scaled(r, 2) if how < 0.7 else c08.weakened(r, 1)))
 
 
 def gen_cases(tier):
